@@ -67,7 +67,7 @@ OPTS = {"par-late-enqueue": {"targeted": [{"kind": "queue_put", "match": {"actio
 def cases(tier, seed):
     rng = random.Random(seed)
     for sname in SHAPES:
-        errs = ERRS if tier != "quick" else [ERRS[0], ERRS[5], ERRS[3], ERRS[8]]
+        errs = (ERRS if tier != "quick" else [ERRS[0], ERRS[5], ERRS[3], ERRS[8], ERRS[2]]) + [{"kind": "garble", "how": "subtype"}]
         yield {"label": "fail-enum-" + sname, "shape": sname, "errs": errs, "prog_seed": seed * 100 + len(sname),
                "whens": ["before", "after"] if tier != "quick" else ["before"], "stride": 1 if tier != "quick" or sname != "nested" else 2}
     n = 30 if tier == "quick" else 400
